@@ -727,10 +727,20 @@ class Analysis:
         return None
 
     def root_of_ref(self, pk):
+        """follow reference locals (and reborrows `&*r`) back to the place they point to"""
         seen = set()
-        while pk in self.refs and pk not in seen:
+        for _ in range(12):
+            if pk in seen:
+                break
             seen.add(pk)
-            pk = self.refs[pk]
+            if pk in self.refs:
+                pk = self.refs[pk]
+                continue
+            if pk[1] and pk[1][0] == ('deref', ) and (pk[0], ()) in self.refs:
+                tgt = self.refs[(pk[0], ())]
+                pk = (tgt[0], tgt[1] + pk[1][1:])
+                continue
+            break
         return pk
 
     def resolve_callee(self, blk, callee):
@@ -865,6 +875,13 @@ class Analysis:
                             self.copy_src[lk] = None
                 if s['k'] == 'assign' and s['rv']['k'] == 'ref' and not s['lhs']['p']:
                     self.refs[place_key(s['lhs'])] = place_key(s['rv']['p'])
+                if s['k'] == 'assign' and s['rv']['k'] in ('use', 'cast') and not s['lhs']['p']:
+                    p = op_place(s['rv']['a'])
+                    if p is not None and not p['p']:
+                        lt = self.fn.local_ty(s['lhs']['l'])
+                        if lt['k'] in ('ref', 'ptr') and place_key(s['lhs']) not in self.refs:
+                            # a moved / unsized copy of a reference points where the original points
+                            self.refs[place_key(s['lhs'])] = place_key(p)
         for bi in fn.reachable():
             t = fn.blocks[bi]['term']
             if t['k'] == 'call' and t.get('callee') in ('core::convert::From::from', 'core::convert::Into::into') and \
@@ -878,6 +895,13 @@ class Analysis:
                     # follow one more copy step (the argument is usually a temp copy of the real place)
                     src = self.copy_src.get(src) or src
                     self.copy_src[lk] = src if lk not in self.copy_src else None
+        for bi in fn.reachable():
+            t = fn.blocks[bi]['term']
+            if t['k'] == 'call' and t.get('callee') in ('core::ops::index::Index::index',
+                                                        'core::ops::index::IndexMut::index_mut') and not t['dest']['p']:
+                p = op_place(t['args'][0])
+                if p is not None and place_key(t['dest']) not in self.refs:
+                    self.refs[place_key(t['dest'])] = place_key(p)  # a sub-slice points into its base
         # a temp assigned more than once is not a reliable alias
         counts = {}
         for bi in fn.reachable():
